@@ -38,6 +38,12 @@ def _input_form(form, cols, cuts, mk, pd):
     return chunk_stream(cols, cuts, mk)
 
 
+def _prior(co, mk):
+    pb = concrete_bins([2], "fixed")
+    data = {"bin1_id": mk([0], "bin1_id"), "bin2_id": mk([1], "bin2_id"), "count": mk([1], "count"), "w": mk([5], "w")}
+    co.create_cooler(scratch_file("c01_prior.cool"), pb, iter([data]), columns=["count", "w"], dtypes={"w": "int16"}, ordered=True)
+
+
 def roundtrip_sym(p):
     from engine import symh5, sympd, symnp
     symh5.reset()
@@ -47,6 +53,9 @@ def roundtrip_sym(p):
     bins = _bins_for(p)
     b1, b2, v = sym_pixels(n, K, upper, vhi=p.get("vhi", 9))
     w = [sym_int(f"w{q}", -3, 3) for q in range(K)]
+    if p.get("prior_int_w"):
+        from engine.symcore import SReal
+        w = [SReal.of(x) / 2 for x in w]      # halves: only a float column holds them
     cols = {"bin1_id": b1, "bin2_id": b2, "count": v, "w": w}
     cuts = sym_cuts(K, m) if form == "iter" else [0, K]
     cover("count_at_type_limit", or_(*[x == 2**31 - 1 for x in v]) if K else False)
@@ -61,8 +70,14 @@ def roundtrip_sym(p):
         cover("table_unsorted", list(perm) != list(range(K)))
         cols = {k: [col[j] for j in perm] for k, col in cols.items()}
     pixels = _input_form(form, cols, cuts, mk, sympd)
-    sc.create_cooler(path, bins, pixels, columns=["count", "w"], dtypes={"w": "float64"}, ordered=True,
-                     symmetric_upper=upper, metadata=META, assembly="asm1")
+    dkw = {"dtypes": {"w": "float64"}}
+    if p.get("prior_int_w"):
+        # an earlier creation in the same process stored a column of the same name as int16: this creation names no type for it and
+        # gets the documented default (float64), whatever happened before
+        _prior(sc, lambda items, k: SArr(list(items), {"bin1_id": "int64", "bin2_id": "int64", "count": "int32", "w": "int16"}[k]))
+        dkw = {}
+    sc.create_cooler(path, bins, pixels, columns=["count", "w"], ordered=True,
+                     symmetric_upper=upper, metadata=META, assembly="asm1", **dkw)
     c = sc.Cooler(path)
     tab = c.pixels()[:]
     cover("empty_chunk", any(a == b_ for a, b_ in zip(cuts[:-1], cuts[1:])))
@@ -102,6 +117,8 @@ def roundtrip_real(p, inputs):
     bins = _bins_for(p)
     b1, b2, v = pixels_from_inputs(inputs, K)
     w = [inputs[f"w{q}"] for q in range(K)]
+    if p.get("prior_int_w"):
+        w = [x / 2 for x in w]
     cols = {"bin1_id": b1, "bin2_id": b2, "count": v, "w": w}
     cuts = real_cuts(inputs, K, m) if form == "iter" else [0, K]
     dts = {"bin1_id": p.get("id_dtype", "int64"), "bin2_id": p.get("id_dtype", "int64"), "count": "int32", "w": "float64"}
@@ -112,8 +129,12 @@ def roundtrip_real(p, inputs):
         import itertools
         perm = list(itertools.permutations(range(K)))[inputs["perm"]]
         given = {k: [col[j] for j in perm] for k, col in cols.items()}
-    cooler.create_cooler(path, bins, _input_form(form, given, cuts, mk, pd), columns=["count", "w"], dtypes={"w": "float64"},
-                         ordered=True, symmetric_upper=upper, metadata=META, assembly="asm1")
+    dkw = {"dtypes": {"w": "float64"}}
+    if p.get("prior_int_w"):
+        _prior(cooler, lambda items, k: np.array(list(items), dtype={"bin1_id": "int64", "bin2_id": "int64", "count": "int32", "w": "int16"}[k]))
+        dkw = {}
+    cooler.create_cooler(path, bins, _input_form(form, given, cuts, mk, pd), columns=["count", "w"],
+                         ordered=True, symmetric_upper=upper, metadata=META, assembly="asm1", **dkw)
     c = cooler.Cooler(path)
     tab = c.pixels()[:]
     exp = pd.DataFrame({k: mk(vv, k) for k, vv in cols.items()})
@@ -158,6 +179,8 @@ def _cases(tier):
     # inside create happens in that type
     out.append(dict(layout=[2], kind="fixed", K=3, m=1, upper=False, form="df"))
     out.append(dict(layout=[1, 2], kind="variable", K=2, m=2, upper=True, form="iter", chrom_names=["chr2", "chr10"]))
+    out.append(dict(layout=[2], kind="fixed", K=1, m=1, upper=True, form="iter", prior_int_w=True))
+    out.append(dict(layout=[2], kind="fixed", K=2, m=1, upper=False, form="df", prior_int_w=True))
     out.append(dict(layout=[12], kind="even", K=2, m=1, upper=True, form="df", id_dtype="int8"))
     out.append(dict(layout=[12], kind="even", K=2, m=1, upper=False, form="dict", id_dtype="int8"))
     return out
